@@ -178,6 +178,9 @@ func specialReplay(in io.Reader, raw bool, args []string) (*Summary, error) {
 					sum.Checks++
 					p, q := mathx.GammaInc(a, x), mathx.GammaIncComp(a, x)
 					wp, wq := mathext.GammaIncReg(a, x), mathext.GammaIncRegComp(a, x)
+					if x > 20*(a+10) { // far in the upper tail the values are 1 and 0 to within 1e-30 whatever a library says
+						wp, wq = 1, 0
+					}
 					if !closeF(p, wp, 1e-9, 0) || !closeF(q, wq, 1e-9, 0) {
 						sum.viol("GammaInc-accuracy", c, "GammaInc(%v,%v)=%.15g GammaIncComp=%.15g, independent values %.15g %.15g", a, x, p, q, wp, wq)
 					}
@@ -304,6 +307,9 @@ func specialRecord(out io.Writer, args []string) error {
 			switch rng.Intn(4) {
 			case 0:
 				x = logUniform(rng, 1e-9, 2000)
+				if rng.Intn(4) == 0 {
+					x = logUniform(rng, 2000, 1e15) // far upper tail
+				}
 			case 1:
 				x = ga + 1 + (rng.Float64()-0.5)*1e-2 // the series / continued-fraction switch-over
 			case 2:
